@@ -1433,6 +1433,36 @@ class Interp:
 
     ex_GeneratorExp = ex_ListComp
 
+    def ex_DictComp(self, st, e):
+        if len(e.generators) != 1:
+            raise Unsupported("nested comprehension")
+        g = e.generators[0]
+        src = self.eval(st, g.iter)
+        items = self.loop_items(st, list(src) if not isinstance(src, (list, tuple, Arr, CArr, range)) and hasattr(src, "__iter__") else src)
+        out = {}
+        saved = dict(st.env)
+        self._cur = st
+        for item_ in items:
+            if item_[0] is not True:
+                raise Unsupported("comprehension over symbolic-length iterable")
+            self.assign(st, g.target, item_[1]())
+            keep = True
+            for cond in g.ifs:
+                c = self.decide(st, self.truth(st, self.eval(st, cond)))
+                if c is False:
+                    keep = False
+                    break
+                if c is not True:
+                    raise Unsupported("comprehension filter with symbolic condition")
+            if keep:
+                out[self.eval(st, e.key)] = self.eval(st, e.value)
+        for k in list(st.env):
+            if k not in saved:
+                del st.env[k]
+        for k, v in saved.items():
+            st.env[k] = v
+        return out
+
     def ex_Yield(self, st, e):
         v = self.eval(st, e.value) if e.value is not None else None
         st.yields = st.yields + [(z_and(*st.pc), v)]
